@@ -155,7 +155,7 @@ def run(ctx, prefixes):
             outcomes[e["res"][:12]] += 1
     if c["Final"] == 0 or outcomes["ok"] == 0 or outcomes["abort"] == 0:
         raise Inconclusive("vacuous: %s %s" % (dict(c), dict(outcomes)))
-    for k in ("pread", "rread", "sread", "ins", "del", "upd", "kupd", "rupd"):
+    for k in ("pread", "rread", "sread", "ins", "del", "upd", "supd", "kupd", "rupd"):
         if kinds[k] == 0:
             raise Inconclusive("vacuous: statement kind %s never run" % k)
     sched = [e for e in vlib.read_ndjson(tr, limit=40)][:12]
